@@ -58,6 +58,9 @@ S_p5 == (1 :> <<<<"recv">>, <<"recv">>, <<"lsend", 9>>, <<"panic", "scripted: la
 M_pp1 == <<<<"psend", 1>>, <<"poll">>, <<"psend", 2>>, <<"poll">>, <<"pdrop">>>>
 M_pp2 == <<<<"poll">>, <<"pdrop">>, <<"poll">>>>
 M_pp3 == <<<<"psend", 1>>, <<"psend", 2>>, <<"poll">>, <<"pdrop">>>>
+\* the worker goes on sending after the PipedThread was dropped; the event loop looks without waiting
+S_p6 == (1 :> <<<<"recv">>, <<"lsend", 5>>, <<"lsend", 6>>>>)
+M_pp4 == <<<<"pdrop">>, <<"trypoll">>, <<"trypoll">>>>
 NoWakers == << >>
 WB_far == (1 :> 4097)
 WB_two == (10 :> 10) @@ (262154 :> 262154)   \* two bitmaps announced through the same poll-waker slot
